@@ -72,7 +72,7 @@ Proof. vm_compute. split; reflexivity. Qed.
    Added in build session 4 (statements re-stated from the proof files by harness tooling; each is closed by
    exact). *)
 From Coquelicot Require Import Coquelicot.
-From SplipyModel Require Import Proofs.ObjEval Proofs.IntegrateFTC.
+From SplipyModel Require Import Proofs.ObjEval Proofs.IntegrateFTC Model.Handed Model.Frenet Proofs.FrenetProofs.
 Open Scope R_scope.
 Theorem C16_integral_of_basis_function :
   forall k : nat -> R,
@@ -185,4 +185,75 @@ Theorem C16_integral_hypotheses_satisfiable :
            (3 / 2) (nth i (basis_integrate (1 / 100) ex_b3m (1 / 2) (3 / 2)) 0).
 Proof. exact @ex_model_RInt_multiple. Qed.
 Print Assumptions C16_integral_hypotheses_satisfiable.
+
+Theorem C16_frenet_regular :
+  forall dx ddx : list R,
+         0 < dot3 dx dx ->
+         0 < dot3 (cross3 dx ddx) (cross3 dx ddx) ->
+         frenet_T dx = HandedProofs.unit3 dx /\
+         frenet_B dx ddx = HandedProofs.unit3 (cross3 dx ddx) /\
+         frenet_N dx ddx = cross3 (HandedProofs.unit3 (cross3 dx ddx)) (HandedProofs.unit3 dx) /\
+         orthonormal_rh (frenet_T dx) (frenet_N dx ddx) (frenet_B dx ddx).
+Proof. exact @frenet_regular. Qed.
+Print Assumptions C16_frenet_regular.
+
+Theorem C16_helper_choice_not_parallel :
+  forall dx : list R, 0 < dot3 dx dx -> 0 < dot3 (cross3 dx (helper_choice dx)) (cross3 dx (helper_choice dx)).
+Proof. exact @helper_choice_not_parallel. Qed.
+Print Assumptions C16_helper_choice_not_parallel.
+
+Theorem C16_frenet_straight :
+  forall dx ddx : list R,
+         0 < dot3 dx dx ->
+         vzero3 ddx ->
+         0 < dot3 (binormal_dir dx ddx) (binormal_dir dx ddx) /\
+         orthonormal_rh (frenet_T dx) (frenet_N dx ddx) (frenet_B dx ddx).
+Proof. exact @frenet_straight. Qed.
+Print Assumptions C16_frenet_straight.
+
+Theorem C16_frenet_frame_orthonormal_both_cases :
+  forall dx ddx : list R,
+         0 < dot3 dx dx ->
+         vzero3 ddx \/ 0 < dot3 (cross3 dx ddx) (cross3 dx ddx) ->
+         orthonormal_rh (frenet_T dx) (frenet_N dx ddx) (frenet_B dx ddx).
+Proof. exact @frenet_orthonormal. Qed.
+Print Assumptions C16_frenet_frame_orthonormal_both_cases.
+
+Theorem C16_frenet_collinear_degenerate :
+  forall (dx : list R) (k : R),
+         k <> 0 ->
+         0 < dot3 dx dx ->
+         let ddx := map (fun x : R => k * x) [vc dx 0; vc dx 1; vc dx 2] in
+         ~ vzero3 ddx /\ binormal_dir dx ddx = [0; 0; 0].
+Proof. exact @frenet_collinear_degenerate. Qed.
+Print Assumptions C16_frenet_collinear_degenerate.
+
+Theorem C16_frenet_pointwise :
+  forall (pts pts' : list (list R * list R)) (i j : nat) (d : list R * list R * list R),
+         (i < length pts)%nat ->
+         (j < length pts')%nat ->
+         nth i pts ([], []) = nth j pts' ([], []) ->
+         nth i (frenet_frames pts) d = nth j (frenet_frames pts') d /\
+         nth i (frenet_frames pts) d = frenet_frame (fst (nth i pts ([], []))) (snd (nth i pts ([], []))).
+Proof. exact @frenet_pointwise. Qed.
+Print Assumptions C16_frenet_pointwise.
+
+Theorem C16_single_choice_wrong :
+  binormal_dir_fixed [0; 0; 1] [0; 0; 1] [0; 0; 0] = [0; 0; 0] /\
+         HandedProofs.norm3 (binormal_dir_fixed [0; 0; 1] [0; 0; 1] [0; 0; 0]) = 0 /\
+         binormal_dir [0; 0; 1] [0; 0; 0] = [0; 1; 0].
+Proof. exact @single_choice_wrong. Qed.
+Print Assumptions C16_single_choice_wrong.
+
+Theorem C16_no_global_helper :
+  forall h : list R,
+         exists dx : list R,
+           0 < dot3 dx dx /\ dot3 (binormal_dir_fixed h dx [0; 0; 0]) (binormal_dir_fixed h dx [0; 0; 0]) = 0.
+Proof. exact @no_global_helper. Qed.
+Print Assumptions C16_no_global_helper.
+
+Theorem C16_frenet_Q_binormal :
+  binormal_dirs polyline_pts = [q3 0 2 0; q3 1 (-1) 0].
+Proof. exact @frenet_Q_binormal. Qed.
+Print Assumptions C16_frenet_Q_binormal.
 
